@@ -45,6 +45,9 @@ def shakespeare_tok(case):
   from fedjax.datasets import shakespeare as ds
   k, seq = case['num_snippets'], case['seq']
   pool = all_snippets(case['max_len'])
+  if case.get('all_bytes'):
+    # every single byte value (control bytes equal to the reserved label ids included), alone and between two letters
+    pool = [bytes([b]) for b in range(256)] + [b'a' + bytes([b]) + b'd' for b in range(256)]
   lists = [case['snippets']] if 'snippets' in case else itertools.product(range(len(pool)), repeat=k)
   evals = 0
   outs = set()
@@ -341,6 +344,7 @@ def plan(ctx):
   ml = 3 if th else 2
   tk = [{'num_snippets': k, 'seq': s, 'max_len': ml if k < 3 else 1} for k in ((0, 1, 2, 3) if th else (0, 1, 2))
         for s in range(2, 7)]
+  tk += [{'num_snippets': 1, 'seq': sq, 'max_len': 1, 'all_bytes': True} for sq in (2, 5)]
   ctx.pmap('shakespeare_tok', tk, chunk=1)
   pool2 = len(all_snippets(2))
   lc = []
